@@ -17,7 +17,7 @@
   OBLIGATION c18_visible_closed
   OBLIGATION c18_roundtrip_wf
   OBLIGATION c18_roundtrip_refuted
-  OPEN c18_single_pass_differs
+  OBLIGATION c18_single_pass_differs
 
   `c18_roundtrip` as first stated (ALL descriptions) is refuted (`c18_roundtrip_refuted`: a union
   over a scalar); the law is proved for well-formed descriptions (`c18_roundtrip_wf`).
@@ -237,13 +237,6 @@ def c18_roundtrip : Prop :=
     buildClient (introspect Defects.none (mkRegistry Defects.none fl d) c true) =
       some (restrict d (visibleNames Defects.none (mkRegistry Defects.none fl d) c) c)
 
-/-- OPEN: a registry on which the single alphabetical pass and the iterated pass differ (the
-    corpus case `single-pass` shows it on the real code; evaluating the well-founded search by
-    `decide` is not possible in the kernel). -/
-def c18_single_pass_differs : Prop :=
-  ∃ (R : Registry) (c : Nat), visibleSet { singlePass := true } R c ≠ visibleSet Defects.none R c
-
-
 -- ------------------------------------------------------------------ completeness of the visibility search
 
 /-- `find_visible_types` (with the iterated final loop) computes EXACTLY the declaratively
@@ -270,6 +263,71 @@ theorem c18_visible_closed (D : Defects) (hD : D.singlePass = false) (R : Regist
     exact (visibleSet_iff D hD R c m).mpr (Reach.child ((visibleSet_iff D hD R c n).mp hn) hl hm hp)
   · intro t ht hk hv hpass p hp hpv
     exact (visibleSet_iff D hD R c _).mpr (Reach.iface ht hk hv hp ((visibleSet_iff D hD R c p).mp hpv) hpass)
+
+-- ------------------------------------------------------------------ witness of the single-pass toggle
+
+private def sQ : IType :=
+  { name := "Q", kind := .object,
+    fields := [{ name := "o", desc := none, ty := .named "O", dep := .no, vis := .always, args := [] }] }
+private def sO : IType := { name := "O", kind := .object }
+private def sA : IType := { name := "A", kind := .interface, possible := ["B"] }
+private def sB : IType := { name := "B", kind := .interface, possible := ["O"] }
+/-- `Q { o: O }`, interface `B` with possible type `O`, interface `A` with possible type `B`: `A`
+    becomes visible only after `B` did, and `A` sorts before `B` -/
+def chainRegistry : Registry :=
+  { types := [sA, sB, sO, sQ], dirs := [], query := "Q", mutation := none, subscription := none }
+
+theorem chain_single : visibleSet { singlePass := true } chainRegistry 0 = ["B", "O", "Q"] := by
+  have lQ : lookup chainRegistry.types "Q" = some sQ := by decide
+  have lO : lookup chainRegistry.types "O" = some sO := by decide
+  have lB : lookup chainRegistry.types "B" = some sB := by decide
+  have v1 : dfs chainRegistry.types 0 ["Q"] [] = ["O", "Q"] := by
+    rw [dfs_visit _ _ _ _ _ sQ (by decide) lQ (by decide)]
+    have : children 0 sQ ++ [] = ["O"] := by decide
+    rw [this, dfs_visit _ _ _ _ _ sO (by decide) lO (by decide)]
+    have : children 0 sO ++ [] = [] := by decide
+    rw [this, dfs_nil]
+  have vB : dfs chainRegistry.types 0 ["B"] ["O", "Q"] = ["B", "O", "Q"] := by
+    rw [dfs_visit _ _ _ _ _ sB (by decide) lB (by decide)]
+    have : children 0 sB ++ [] = ["O"] := by decide
+    rw [this, dfs_seen _ _ _ _ _ (by decide), dfs_nil]
+  have sA' : ifaceStep chainRegistry.types 0 ["O", "Q"] sA = ["O", "Q"] := by
+    unfold ifaceStep; rw [if_neg (by decide)]
+  have sB' : ifaceStep chainRegistry.types 0 ["O", "Q"] sB = ["B", "O", "Q"] := by
+    unfold ifaceStep; rw [if_pos (by decide)]; exact vB
+  have sO' : ifaceStep chainRegistry.types 0 ["B", "O", "Q"] sO = ["B", "O", "Q"] := by
+    unfold ifaceStep; rw [if_neg (by decide)]
+  have sQ' : ifaceStep chainRegistry.types 0 ["B", "O", "Q"] sQ = ["B", "O", "Q"] := by
+    unfold ifaceStep; rw [if_neg (by decide)]
+  unfold visibleSet
+  simp only [if_true]
+  have e0 : (chainRegistry.dirs.flatMap fun d => inputKids 0 d.args) = [] := rfl
+  have e1 : rootNames chainRegistry = ["Q"] := rfl
+  rw [e0, dfs_nil, e1, v1, ifacePass_eq]
+  show List.foldl _ ["O", "Q"] [sA, sB, sO, sQ] = _
+  simp only [List.foldl_cons, List.foldl_nil, sA', sB', sO', sQ']
+
+/-- a registry on which the single alphabetical pass and the iterated pass differ: the iterated
+    pass finds `A` (by `c18_visible_complete`), the single pass does not -/
+theorem c18_single_pass_differs : ∃ (R : Registry) (c : Nat),
+    visibleSet { singlePass := true } R c ≠ visibleSet Defects.none R c := by
+  refine ⟨chainRegistry, 0, fun h => ?_⟩
+  have lQ : lookup chainRegistry.types "Q" = some sQ := by decide
+  have lO : lookup chainRegistry.types "O" = some sO := by decide
+  have lB : lookup chainRegistry.types "B" = some sB := by decide
+  have lA : lookup chainRegistry.types "A" = some sA := by decide
+  have rQ : Reach chainRegistry.types 0 (searchRoots chainRegistry 0) "Q" :=
+    Reach.root (by decide) ⟨sQ, lQ, rfl⟩
+  have rO : Reach chainRegistry.types 0 (searchRoots chainRegistry 0) "O" :=
+    Reach.child rQ lQ (by decide) ⟨sO, lO, rfl⟩
+  have rB : Reach chainRegistry.types 0 (searchRoots chainRegistry 0) "B" :=
+    Reach.iface (t := sB) (p := "O") (by decide) rfl rfl (by decide) rO ⟨sB, lB, rfl⟩
+  have rA : Reach chainRegistry.types 0 (searchRoots chainRegistry 0) "A" :=
+    Reach.iface (t := sA) (p := "B") (by decide) rfl rfl (by decide) rB ⟨sA, lA, rfl⟩
+  have hA := (visibleSet_iff Defects.none rfl chainRegistry 0 "A").mpr rA
+  rw [← h, chain_single] at hA
+  revert hA
+  decide
 
 -- ------------------------------------------------------------------ the round trip
 
